@@ -524,7 +524,8 @@ theorem effTimeout_eq (cfg : Cfg) (h : fl.timeout0Absent = true → cfg.timeout 
 /-- the new subsystem answers as specified when the timeout is not 0 and a time trigger without future instant is
 not combined with anything else -/
 theorem new_first (cfg : Cfg) (hwf : WellFormed cfg) (htz : fl.timeout0Absent = true → cfg.timeout ≠ some 0)
-    (hdead : hasTime cfg = true → (timeNext cfg.time call).isSome = true ∨ (hasListen cfg = false ∧ cfg.timeout = Option.none))
+    (hdead : fl.noneEager = true → hasTime cfg = true →
+      (timeNext cfg.time call).isSome = true ∨ (hasListen cfg = false ∧ cfg.timeout = Option.none))
     (q : Nat) (tb : Tables) (v0 : Nat) (hist : Hist) (hm : Mono call hist) :
     (New.run fl cfg q tb v0 call hist).1 = first cfg v0 call hist := by
   have heff := effTimeout_eq fl cfg htz
@@ -564,7 +565,7 @@ theorem new_first (cfg : Cfg) (hwf : WellFormed cfg) (htz : fl.timeout0Absent = 
       intro s t; unfold New.mqttStart; split <;> exact ⟨_, _, rfl⟩
     -- after the state stage has passed: the time stage and the wait
     have rest : ∀ (s1 : New.Started) (t1 : Tables), checkNow cfg v0 call = Option.none →
-        (New.finish fl cfg q call hist (New.afterState cfg q call s1 t1)).1 = first cfg v0 call hist := by
+        (New.finish fl cfg q call hist (New.afterState fl cfg q call s1 t1)).1 = first cfg v0 call hist := by
       intro s1 t1 hck
       unfold first
       rw [hck]
@@ -572,13 +573,44 @@ theorem new_first (cfg : Cfg) (hwf : WellFormed cfg) (htz : fl.timeout0Absent = 
       by_cases ht : hasTime cfg = true
       · simp only [ht, if_true]
         by_cases hnone : (timeNext cfg.time call).isNone = true
-        · -- a time trigger without future instant dispatches `none` at once
-          simp only [hnone, if_true, New.Stage.andThen, New.finish]
-          rcases hdead ht with h1 | ⟨h1, h2⟩
-          · simp only [Option.isNone_iff_eq_none] at hnone
-            rw [hnone] at h1; simp at h1
-          · simp only [Option.isNone_iff_eq_none] at hnone
-            simp [deadlineAt, hnone, h2, deadline, h1]
+        · -- a time trigger without future instant
+          simp only [hnone, if_true]
+          by_cases hnn : New.noneNow fl cfg = true
+          · -- ... dispatches `none` at once
+            simp only [hnn, if_true, New.Stage.andThen, New.finish]
+            have hboth : hasListen cfg = false ∧ cfg.timeout = Option.none := by
+              unfold New.noneNow at hnn
+              by_cases he : fl.noneEager = true
+              · rcases hdead he ht with h1 | h12
+                · simp only [Option.isNone_iff_eq_none] at hnone
+                  rw [hnone] at h1; simp at h1
+                · exact h12
+              · simp only [he, Bool.false_or, Bool.and_eq_true, Bool.not_eq_true', Option.isNone_iff_eq_none] at hnn
+                rw [heff] at hnn
+                exact hnn
+            simp only [Option.isNone_iff_eq_none] at hnone
+            simp [deadlineAt, hnone, hboth.2, deadline, hboth.1]
+          · -- ... or just ends: the wait goes on for the other triggers / the timeout
+            simp only [hnn, Bool.false_eq_true, if_false, New.Stage.andThen]
+            obtain ⟨s3, t3, h3⟩ := hev s1 t1
+            simp only [h3]
+            obtain ⟨s4, t4, h4⟩ := hmq s3 t3
+            simp only [h4, New.finish]
+            have hcond : ((deadlineAt cfg call).isNone && !hasListen cfg) = false := by
+              cases hc : ((deadlineAt cfg call).isNone && !hasListen cfg) with
+              | false => rfl
+              | true =>
+                exfalso
+                apply hnn
+                simp only [Bool.and_eq_true, Option.isNone_iff_eq_none, Bool.not_eq_true'] at hc
+                have hd := (deadline_none _ _).1 hc.1
+                have hto : cfg.timeout = Option.none := by
+                  cases h : cfg.timeout with
+                  | none => rfl
+                  | some T => rw [h] at hd; simp at hd
+                simp [New.noneNow, hc.2, heff, hto]
+            simp only [hcond, Bool.false_eq_true, if_false]
+            exact new_loop_eq fl cfg call hdl hist call hm
         · simp only [hnone, Bool.false_eq_true, if_false, New.Stage.andThen]
           obtain ⟨s3, t3, h3⟩ := hev { s1 with tm := true } { t1 with tasks := t1.tasks + 1 }
           simp only [h3]
@@ -796,8 +828,8 @@ theorem New.start_cases (cfg : Cfg) (q : Nat) (tb : Tables) (v0 call : Nat) (hf 
     obtain ⟨a, b, c, d, e, f⟩ := tb; simp [New.applied]
   -- generic continuation from a state (s1, applied) with the later flags unset
   have tail : ∀ (s1 : New.Started), s1.tm = false → s1.ev = false → s1.mq = false →
-      (∃ e, New.afterState cfg q call s1 (New.applied q s1 tb) = .error (e, tb)) ∨
-      (∃ s, New.afterState cfg q call s1 (New.applied q s1 tb) = .ok (s, New.applied q s tb)) := by
+      (∃ e, New.afterState fl cfg q call s1 (New.applied q s1 tb) = .error (e, tb)) ∨
+      (∃ s, New.afterState fl cfg q call s1 (New.applied q s1 tb) = .ok (s, New.applied q s tb)) := by
     intro s1 h1 h2 h3
     unfold New.afterState New.timeStart New.eventStart New.mqttStart
     obtain ⟨to, st, tm, ev, mq⟩ := s1
@@ -805,15 +837,22 @@ theorem New.start_cases (cfg : Cfg) (q : Nat) (tb : Tables) (v0 call : Nat) (hf 
     subst h1; subst h2; subst h3
     by_cases ht : hasTime cfg = true
     · by_cases hn : (timeNext cfg.time call).isNone = true
-      · left
-        refine ⟨.ret call .none, ?_⟩
-        simp only [ht, hn, if_true, New.Stage.andThen]
-        have h1 := New.stopAll_applied q { to := to, st := st, tm := true, ev := false, mq := false } tb hf
-        have h2 : ({ New.applied q { to := to, st := st, tm := false, ev := false, mq := false } tb with
-              tasks := (New.applied q { to := to, st := st, tm := false, ev := false, mq := false } tb).tasks + 1 } : Tables)
-            = New.applied q { to := to, st := st, tm := true, ev := false, mq := false } tb := by
-          simp [New.applied]
-        rw [h2, h1]
+      · by_cases hnn : New.noneNow fl cfg = true
+        · left
+          refine ⟨.ret call .none, ?_⟩
+          simp only [ht, hn, hnn, if_true, New.Stage.andThen]
+          have h1 := New.stopAll_applied q { to := to, st := st, tm := true, ev := false, mq := false } tb hf
+          have h2 : ({ New.applied q { to := to, st := st, tm := false, ev := false, mq := false } tb with
+                tasks := (New.applied q { to := to, st := st, tm := false, ev := false, mq := false } tb).tasks + 1 } : Tables)
+              = New.applied q { to := to, st := st, tm := true, ev := false, mq := false } tb := by
+            simp [New.applied]
+          rw [h2, h1]
+        · right
+          refine ⟨{ to := to, st := st, tm := false, ev := cfg.event.isSome, mq := cfg.mqtt.isSome }, ?_⟩
+          simp only [ht, hn, hnn, if_true, Bool.false_eq_true, if_false, New.Stage.andThen]
+          cases cfg.event.isSome <;> cases cfg.mqtt.isSome <;>
+            simp only [if_true, Bool.false_eq_true, if_false] <;>
+            (congr 1) <;> (congr 1) <;> simp [New.applied]
       · right
         refine ⟨{ to := to, st := st, tm := true, ev := cfg.event.isSome, mq := cfg.mqtt.isSome }, ?_⟩
         simp only [ht, hn, if_true, Bool.false_eq_true, if_false, New.Stage.andThen]
@@ -829,9 +868,9 @@ theorem New.start_cases (cfg : Cfg) (q : Nat) (tb : Tables) (v0 call : Nat) (hf 
   -- the state stage from (s0, applied s0) where only `to` may be set
   have mid : ∀ (b : Bool),
       (∃ e, (New.stateStart cfg q v0 call { to := b } (New.applied q { to := b } tb)).andThen
-              (New.afterState cfg q call) = .error (e, tb)) ∨
+              (New.afterState fl cfg q call) = .error (e, tb)) ∨
       (∃ s, (New.stateStart cfg q v0 call { to := b } (New.applied q { to := b } tb)).andThen
-              (New.afterState cfg q call) = .ok (s, New.applied q s tb)) := by
+              (New.afterState fl cfg q call) = .ok (s, New.applied q s tb)) := by
     intro b
     unfold New.stateStart
     cases hs : cfg.state with
@@ -1254,18 +1293,21 @@ theorem new_cancel_keeps (cfg : Cfg) (q : Nat) (tb : Tables) (v0 call : Nat) (hi
           have : ∀ (r : New.Stage) (x : Exit × Tables), r = .error x → True := fun _ _ _ => trivial
           unfold New.start New.timeoutStart at he
           have hne : ∀ (s1 : New.Started) (t1 : Tables) (tt : Tables),
-              New.afterState cfg q call s1 t1 ≠ .error (.cancelled t, tt) := by
+              New.afterState fl cfg q call s1 t1 ≠ .error (.cancelled t, tt) := by
             intro s1 t1 tt
             unfold New.afterState New.timeStart New.eventStart New.mqttStart
             by_cases ht : hasTime cfg = true
             · by_cases hn : (timeNext cfg.time call).isNone = true
-              · simp [ht, hn, New.Stage.andThen]
+              · by_cases hnn : New.noneNow fl cfg = true
+                · simp [ht, hn, hnn, New.Stage.andThen]
+                · simp only [ht, hn, hnn, if_true, Bool.false_eq_true, if_false, New.Stage.andThen]
+                  cases cfg.event.isSome <;> cases cfg.mqtt.isSome <;> simp
               · simp only [ht, hn, if_true, Bool.false_eq_true, if_false, New.Stage.andThen]
                 cases cfg.event.isSome <;> cases cfg.mqtt.isSome <;> simp
             · simp only [ht, Bool.false_eq_true, if_false, New.Stage.andThen]
               cases cfg.event.isSome <;> cases cfg.mqtt.isSome <;> simp
           have hmid : ∀ (s0 : New.Started) (t0 : Tables) (tt : Tables),
-              (New.stateStart cfg q v0 call s0 t0).andThen (New.afterState cfg q call) ≠ .error (.cancelled t, tt) := by
+              (New.stateStart cfg q v0 call s0 t0).andThen (New.afterState fl cfg q call) ≠ .error (.cancelled t, tt) := by
             intro s0 t0 tt
             unfold New.stateStart
             cases cfg.state with
